@@ -6,7 +6,7 @@
    handle cap), every piece length and every initial handle table.
    Chunk arithmetic: count = ceil(size / L), only the last chunk may be shorter.
    The hash function is a parameter (any H); see DESIGN.md for the pipeline part. *)
-From Torf Require Import Base Extracted Geometry Stream ChunkProofs IterProofs.
+From Torf Require Import Base Extracted Geometry Stream ChunkProofs IterProofs Pipeline PipelineProofs FlowProofs.
 Open Scope Z_scope.
 
 Theorem C01_items : forall d L fs h,
@@ -45,6 +45,20 @@ Proof.
   rewrite Nat2Z.inj_add, IH, Hw. rewrite Nat2Z.inj_succ. ring.
 Qed.
 Print Assumptions C01_digest_string_length.
+
+(* the threaded part: if the reader feeds the pipeline with the chunks of the stream (what C01_items says
+   iter_pieces yields; [hid] names a chunk's digest), then under EVERY schedule, with any number of hasher
+   threads, a hashing run that returns True has collected exactly the digests of the chunks, in order *)
+Theorem C01_pipeline : forall (hid : bytes -> Z) d L fs c s,
+  yielded (cf_items c) = map (fun p => RPiece (hid p)) (chunks L (stream_of d fs)) ->
+  cf_verify c = None -> cf_total c = Pipeline.zlen (chunks L (stream_of d fs)) ->
+  reach c s -> s_result s = Some ResTrue ->
+  sorted_hashes (s_hashes s) = map hid (chunks L (stream_of d fs)).
+Proof.
+  intros hid d L fs c s HY Hv Ht Hr Hres. apply (true_means_reference c s (map hid (chunks L (stream_of d fs))) Hr Hv); [|unfold Pipeline.zlen in *; rewrite map_length; exact Ht|exact Hres].
+  rewrite HY, map_map. reflexivity.
+Qed.
+Print Assumptions C01_pipeline.
 
 (* non-vacuity: 3 files, boundary inside the second file, L = 4 *)
 Example C01_example :
